@@ -270,7 +270,9 @@ static int contract_obj(printer_t f, struct tsn_ctx *c, const char *what)
 }
 
 /* post-load modification history: ops separated by '|'
- *   g TYPE FIRST LAST [DM]   hwloc_topology_insert_group_object of the union of objects FIRST..LAST of TYPE
+ *   g TYPE FIRST LAST [DM [KIND]]  hwloc_topology_insert_group_object of the union of objects FIRST..LAST of TYPE
+ *                            (dont_merge = DM; group.kind = KIND when given; the same range twice re-inserts a Group
+ *                            with the cpuset of an existing one: merged, or replacing its contents when DM=1 / smaller kind)
  *   r CPUSET FLAGS           hwloc_topology_restrict (CPUSET in hwloc_bitmap_sscanf syntax)
  *   dg TYPE K                latency matrix over all objects of TYPE, blocks of K close objects, added with ADD_FLAG_GROUP
  * prints one "hist ..." line per op */
@@ -280,15 +282,16 @@ static void apply_history(hwloc_topology_t t, const char *hist, int quiet)
 #define HPRINTF(...) do { if (!quiet) printf(__VA_ARGS__); } while (0)
   char *copy = strdup(hist), *op, *save;
   for (op = strtok_r(copy, "|", &save); op; op = strtok_r(NULL, "|", &save)) {
-    unsigned ty, a, b, dm = 0; unsigned long fl; char set[1024];
+    unsigned ty, a, b, dm = 0, kind = 0; unsigned long fl; char set[1024]; int nf;
     while (*op == ' ') op++;
-    if (sscanf(op, "g %u %u %u %u", &ty, &a, &b, &dm) >= 3) {
+    if ((nf = sscanf(op, "g %u %u %u %u %u", &ty, &a, &b, &dm, &kind)) >= 3) {
       hwloc_obj_t g = hwloc_topology_alloc_group_object(t), res; unsigned k, n = 0;
       if (!g) { HPRINTF("hist g alloc-failed\n"); continue; }
       for (k = a; k <= b; k++) { hwloc_obj_t o = hwloc_get_obj_by_type(t, (hwloc_obj_type_t) ty, k); if (o && o->cpuset) { hwloc_obj_add_other_obj_sets(g, o); n++; } }
       g->attr->group.dont_merge = (unsigned char) (dm != 0);
+      if (nf >= 5) g->attr->group.kind = kind;
       res = hwloc_topology_insert_group_object(t, g);
-      HPRINTF("hist g %u %u-%u members=%u %s\n", ty, a, b, n, !res ? "null" : res == g ? "inserted" : "merged");
+      HPRINTF("hist g %u %u-%u dm=%u members=%u %s\n", ty, a, b, dm, n, !res ? "null" : res == g ? "inserted" : "merged");
     } else if (sscanf(op, "r %1023s %lu", set, &fl) == 2) {
       hwloc_bitmap_t bm = hwloc_bitmap_alloc(); int rc;
       hwloc_bitmap_sscanf(bm, set);
